@@ -1,6 +1,6 @@
 //! Bounded stand-in / failing-input search for unit U8 (union-find) — NOT a proof.
 //! host: src/egraph/find.rs
-//! functions: AppliedId::apply_slotmap AppliedId::apply_slotmap_partial AppliedId::new EGraph::chain_pai EGraph::proven_proven_find_applied_id EGraph::unionfind_get_impl
+//! functions: AppliedId::apply_slotmap AppliedId::apply_slotmap_partial AppliedId::new EGraph::chain_pai EGraph::proven_proven_find_applied_id EGraph::unionfind_get_impl EGraph::proven_find_applied_id EGraph::find_applied_id EGraph::unionfind_get EGraph::find_id
 //! Bound: 30000 pseudo-random forests (fixed seed) over at most 4 ids and slots $0..$2 (leaders may have lost slots their followers still mention), every start id,
 //! compared with an independent BTreeMap implementation of "follow the entries and compose the maps".
 use crate::*;
@@ -36,6 +36,7 @@ pub fn run(only: &[String]) -> Vec<String> {
     let eg: EGraph<UL, ()> = EGraph::default();
     let mut rng = Rng(0x5107_7ed);
     let mut nf = [0usize; 3];
+    let mut nf3 = 0usize;
     // thorough tier (VERIF_BOUNDED_DEEP): 300000 forests over at most 6 ids
     let deep = std::env::var("VERIF_BOUNDED_DEEP").is_ok();
     for _ in 0..(if deep { 300000 } else { 30000 }) {
@@ -91,6 +92,33 @@ pub fn run(only: &[String]) -> Vec<String> {
                 for (x, y) in &m { if let Some(z) = args.get(y) { e.insert(*x, *z); } }
                 let label = if only.len() == 1 { only[0].clone() } else { "EGraph::proven_proven_find_applied_id".to_string() };
                 if r.elem.id != Id(root) || from_sm(&r.elem.m) != from_sm(&to_sm(&e)) { nf[2] += 1; fails.push(format!("FAIL {} C13:find_applied_id.spec forest=[{}] find({} with arguments {:?}) got ({}, {:?}) expected ({}, {:?})", label, show(&forest), i, args, r.elem.id.0, from_sm(&r.elem.m), root, e)); }
+            }
+            if (want("EGraph::proven_find_applied_id") || want("EGraph::find_applied_id") || want("EGraph::unionfind_get") || want("EGraph::find_id")) && nf3 < 3 {
+                // the entry points (thin wrappers around the core): same oracle, through the stored forest of a real EGraph
+                let eg2: EGraph<UL, ()> = EGraph::default();
+                for (j, e) in vecform(&forest).into_iter().enumerate() { eg2.unionfind_set(Id(j), e); }
+                let mut args = M::new();
+                for (n_, s) in slots[i].iter().enumerate() { if rng.next(4) != 0 { args.insert(*s, 10 + n_ as u32); } }
+                let inv = AppliedId { id: Id(i), m: to_sm(&args) };
+                let (root, m) = resolve(&forest, i);
+                let mut e = M::new();
+                for (x, y) in &m { if let Some(z) = args.get(y) { e.insert(*x, *z); } }
+                if want("EGraph::proven_find_applied_id") {
+                    let r = eg2.proven_find_applied_id(&inv).elem;
+                    if r.id != Id(root) || from_sm(&r.m) != from_sm(&to_sm(&e)) { nf3 += 1; fails.push(format!("FAIL EGraph::proven_find_applied_id C13:proven_find_applied_id.spec forest=[{}] find({} with arguments {:?}) got ({}, {:?}) expected ({}, {:?})", show(&forest), i, args, r.id.0, from_sm(&r.m), root, e)); }
+                }
+                if want("EGraph::find_applied_id") {
+                    let r = eg2.find_applied_id(&inv);
+                    if r.id != Id(root) || from_sm(&r.m) != from_sm(&to_sm(&e)) { nf3 += 1; fails.push(format!("FAIL EGraph::find_applied_id C13:find_applied_id.public forest=[{}] find({} with arguments {:?}) got ({}, {:?}) expected ({}, {:?})", show(&forest), i, args, r.id.0, from_sm(&r.m), root, e)); }
+                }
+                if want("EGraph::unionfind_get") {
+                    let r = eg2.unionfind_get(Id(i));
+                    if r.id != Id(root) || from_sm(&r.m) != from_sm(&to_sm(&m)) { nf3 += 1; fails.push(format!("FAIL EGraph::unionfind_get C13:unionfind_get.resolve forest=[{}] get({}) got ({}, {:?}) expected ({}, {:?})", show(&forest), i, r.id.0, from_sm(&r.m), root, m)); }
+                }
+                if want("EGraph::find_id") {
+                    let r = eg2.find_id(Id(i));
+                    if r != Id(root) { nf3 += 1; fails.push(format!("FAIL EGraph::find_id C13:find_id.leader forest=[{}] find_id({}) got {} expected {}", show(&forest), i, r.0, root)); }
+                }
             }
             if want("EGraph::chain_pai") && nf[1] < 3 && forest[i].0 != i {
                 let v = vecform(&forest);
